@@ -124,9 +124,49 @@ pub fn graph_decls(kinds: &[Kind], edges: &[Vec<u8>]) -> Vec<String>
 			last.push_str(&format!("const Z{u}: usize = |:{}|;\n", name(u)));
 		}
 	}
-	last.push_str("fn main() -> i32\n{\n\treturn: 0\n}\n");
+	// ... and every constant as the length of a local array of bytes: a second way to observe the
+	// values (the element count of the array type in the IR), should the IR not state the constants
+	last.push_str("fn main() -> i32\n{\n");
+	for u in 0..n
+	{
+		let c = if kinds[u] == Kind::Struct { format!("Z{u}") } else { format!("C{u}") };
+		last.push_str(&format!("\tvar len_{c}: [{c}]u8;\n"));
+	}
+	last.push_str("\treturn: 0\n}\n");
 	decls.push(last);
 	decls
+}
+
+/// The lengths of the byte arrays allocated in `main`, in order.
+fn byte_array_lengths_in_main(ir: &str) -> Vec<u64>
+{
+	let mut out = Vec::new();
+	let mut in_main = false;
+	for line in ir.lines()
+	{
+		if line.starts_with("define ")
+		{
+			in_main = line.contains("@main(");
+		}
+		if in_main
+		{
+			if let Some(i) = line.find("alloca [")
+			{
+				let rest = &line[i + 8..];
+				if let Some((n, tail)) = rest.split_once(" x ")
+				{
+					if tail.starts_with("i8]")
+					{
+						if let Ok(v) = n.parse::<u64>()
+						{
+							out.push(v);
+						}
+					}
+				}
+			}
+		}
+	}
+	out
 }
 
 /// The values the documented semantics give the constants of an acyclic graph program: C_u = 1 +
@@ -207,11 +247,20 @@ fn constants_in_ir(ir: &str) -> std::collections::BTreeMap<String, u64>
 		{
 			continue;
 		};
-		if let Some(i) = tail.find("constant i64 ")
+		// `@C0 = private unnamed_addr constant i64 3`: any linkage and attribute words, `constant` or
+		// `global`, any integer type, then the value
+		let words: Vec<&str> = tail.split_whitespace().collect();
+		if let Some(k) = words.iter().position(|w| *w == "constant" || *w == "global")
 		{
-			if let Ok(v) = tail[i + 13..].trim().parse::<u64>()
+			if let (Some(ty), Some(value)) = (words.get(k + 1), words.get(k + 2))
 			{
-				out.insert(name.to_string(), v);
+				if ty.starts_with('i') && ty[1..].chars().all(|c| c.is_ascii_digit())
+				{
+					if let Ok(v) = value.trim_end_matches(',').parse::<u64>()
+					{
+						out.insert(name.trim_matches('"').to_string(), v);
+					}
+				}
 			}
 		}
 	}
@@ -491,7 +540,21 @@ pub fn work(spec: &Value, w: &mut WorkerCtx)
 						None
 					};
 					let main = "fn main() -> i32\n{\n\treturn: 0\n}\n";
-					let texts = vec![format!("{}{}{main}", decl(a, "X"), decl(b, "X")), format!("{}{main}{}", decl(b, "X"), decl(a, "X")), format!("{main}{}{}", decl(a, "X"), decl(b, "X"))];
+					// two declarations of one name in different namespaces are both usable: a function
+					// that uses each of them the way its kind is used
+					let use_of = |kind: &str| match kind
+					{
+						"fn" => "\tX();\n",
+						"const" => "\tvar c: i32 = X;\n",
+						_ => "\tvar s: X = X { a: 1 };\n",
+					};
+					let user = if same_namespace { String::new() } else { format!("fn user()\n{{\n{}{}}}\n", use_of(a), use_of(b)) };
+					let texts = vec![
+						format!("{}{}{user}{main}", decl(a, "X"), decl(b, "X")),
+						format!("{}{main}{user}{}", decl(b, "X"), decl(a, "X")),
+						format!("{user}{main}{}{}", decl(a, "X"), decl(b, "X")),
+						format!("{}{user}{}{main}", decl(b, "X"), decl(a, "X")),
+					];
 					w.result.transitions += 3;
 					judge_orders(&texts, expect, &format!("duplicate name: {a} and {b}"), w);
 				}
@@ -961,6 +1024,12 @@ fn judge_orders_and_values(texts: &[String], expect: Option<Vec<u16>>, what: &st
 	let d = desc().to_string().into_bytes();
 	let size = texts[0].len() as u64;
 	let want_values = values.is_some();
+	// the names whose values main declares arrays of, in declaration order (graph programs only)
+	let value_names: Option<Vec<String>> = values.filter(|v| v.keys().any(|k| k.starts_with('C') || k.starts_with('Z'))).map(|v| {
+		let mut names: Vec<String> = v.keys().cloned().collect();
+		names.sort_by_key(|k| k[1..].parse::<usize>().unwrap_or(0));
+		names
+	});
 	let outcome = w.run_case(&d, || {
 		texts
 			.iter()
@@ -976,7 +1045,22 @@ fn judge_orders_and_values(texts: &[String], expect: Option<Vec<u16>>, what: &st
 				};
 				let constants = match &v
 				{
-					Verdict::Ok { irs, .. } if want_values => irs.first().map(|ir| constants_in_ir(ir)),
+					Verdict::Ok { irs, .. } if want_values => irs.first().map(|ir| {
+						let mut m = constants_in_ir(ir);
+						// second channel: `var len_X: [X]u8;` in main, in the order of the names
+						if let Some(names) = &value_names
+						{
+							let lengths = byte_array_lengths_in_main(ir);
+							if lengths.len() == names.len()
+							{
+								for (name, v) in names.iter().zip(lengths)
+								{
+									m.entry(format!("len_{name}")).or_insert(v);
+								}
+							}
+						}
+						m
+					}),
 					_ => None,
 				};
 				((kind, codes), constants)
@@ -998,7 +1082,20 @@ fn judge_orders_and_values(texts: &[String], expect: Option<Vec<u16>>, what: &st
 					{
 						continue;
 					};
-					let wrong: Vec<String> = values.iter().filter(|(name, v)| constants.get(*name) != Some(*v)).map(|(name, v)| format!("{name} = {:?} (model: {v})", constants.get(name))).collect();
+					// a constant that the IR does not state (folded away, emitted in a form this reader
+					// does not know) cannot be observed: counted, not judged
+					// a value is observed through the global of the constant or through the array in main
+					let observe = |name: &String| constants.get(name).or(constants.get(&format!("len_{name}"))).copied();
+					let unobserved = values.keys().filter(|name| observe(name).is_none()).count();
+					w.result.count("constants of accepted graph programs read from the IR and compared with the model", (values.len() - unobserved) as u64);
+					if unobserved > 0
+					{
+						w.result.count("constants of accepted graph programs that the IR does not state (not judged)", unobserved as u64);
+					}
+					let mut wrong: Vec<String> = values.iter().filter(|(name, v)| observe(name).map_or(false, |got| got != **v)).map(|(name, v)| format!("{name} = {:?} (model: {v})", observe(name))).collect();
+					// both channels must agree with the model when both are there
+					wrong.extend(values.iter().filter(|(name, v)| constants.get(&format!("len_{name}")).map_or(false, |got| got != *v)).map(|(name, v)| format!("the array of length {name} has {:?} elements (model: {v})", constants.get(&format!("len_{name}")))));
+					wrong.dedup();
 					if !wrong.is_empty()
 					{
 						ok = false;
